@@ -81,8 +81,7 @@ HELPERS = {
             (PM + 'likelihood', ['log_likelihood_alleles_cached']),
             (AM + 'mcmc', ['_denovo_assembler']),
             (AM + 'tempering', ['chain_swap_step'])],
-    'C10': [(BC, ['program.encode_sample_reads']),
-            ('mchap.application.arguments', ['parse_sample_pools', 'parse_sample_bam_paths']),
+    'C10': [('mchap.application.arguments', ['parse_sample_pools', 'parse_sample_bam_paths']),
             MSET_COUNT],
     'C11': [(J, ['_greatest_common_denominatior', '_comb', 'comb', '_comb_with_replacement', 'comb_with_replacement',
                  'genotype_alleles_as_index', 'index_as_genotype_alleles', 'increment_genotype']),
